@@ -371,10 +371,11 @@ func complete(t *ref.Type, v ref.V, fuel int, lenient bool) (ref.V, bool) {
 		for _, f := range t.Struct.Fields {
 			fv, has := sv.F[f.ID]
 			if !has || fv == nil {
-				if t.Struct.Kind == "union" || t.Struct.Kind == "result" {
+				if t.Struct.Kind == "result" {
 					continue
 				}
-				if f.Req == idl.ReqOptional {
+				if f.Req == idl.ReqOptional || t.Struct.Kind == "union" {
+					// (also for the other members of a union: a nil binary member with a default would count as a second member set)
 					if f.HasDef && f.Type.Kind == ref.Binary && f.Default != nil {
 						o.F[f.ID] = f.Default
 					}
@@ -664,8 +665,9 @@ func judgeCall(sch *ref.Schema, svc *svcJ, cl *callJ, m *methodJ, gm *goMethod, 
 		return 0, fmt.Errorf("the call panicked: %v", p)
 	}
 	exs, _ := r["exchanges"].([]interface{})
+	cerr, _ := r["err"].(map[string]interface{})
 	if len(exs) != 1 {
-		return 0, fmt.Errorf("the client flushed %d messages for one call, want 1", len(exs))
+		return 0, fmt.Errorf("the client flushed %d messages for one call, want 1\n  caller got %s", len(exs), errDesc(cerr))
 	}
 	ex, _ := exs[0].(map[string]interface{})
 	if p, ok := ex["panic"]; ok {
@@ -673,7 +675,6 @@ func judgeCall(sch *ref.Schema, svc *svcJ, cl *callJ, m *methodJ, gm *goMethod, 
 	}
 	reqB, _ := hex.DecodeString(str(ex["req"]))
 	repB, _ := hex.DecodeString(str(ex["rep"]))
-	cerr, _ := r["err"].(map[string]interface{})
 	handler, _ := r["handler"].([]interface{})
 	unknown := cl.Unknown != ""
 
